@@ -18,14 +18,14 @@ static struct vf_el vf_pool[VF_POOL];
 
 static int vf_cmp_key(const void * a, const void * b, void * p)
 {
-    (void)p;
+    VF_ASSERT(p == VF_CMP_PRIV, "the comparison function is handed the private pointer given at init");
     return vf_signmag(((const struct vf_el *)a)->key > ((const struct vf_el *)b)->key, ((const struct vf_el *)a)->key < ((const struct vf_el *)b)->key);
 }
 
 #ifdef VF_RB
 static struct cstl_rbtree vf_t;
 #define T_BT        (&vf_t.t)
-#define T_INIT()    cstl_rbtree_init(&vf_t, vf_cmp_key, NULL, offsetof(struct vf_el, rn))
+#define T_INIT()    cstl_rbtree_init(&vf_t, vf_cmp_key, VF_CMP_PRIV, offsetof(struct vf_el, rn))
 #define T_INSERT(e, h) cstl_rbtree_insert(&vf_t, e, h)
 #define T_FIND(e, pp)  cstl_rbtree_find(&vf_t, e, pp)
 #define T_ERASE(e)     cstl_rbtree_erase(&vf_t, e)
@@ -35,7 +35,7 @@ static struct cstl_rbtree vf_t;
 #else
 static struct cstl_bintree vf_t;
 #define T_BT        (&vf_t)
-#define T_INIT()    cstl_bintree_init(&vf_t, vf_cmp_key, NULL, offsetof(struct vf_el, rn.n))
+#define T_INIT()    cstl_bintree_init(&vf_t, vf_cmp_key, VF_CMP_PRIV, offsetof(struct vf_el, rn.n))
 #define T_INSERT(e, h) cstl_bintree_insert(&vf_t, e, h)
 #define T_FIND(e, pp)  cstl_bintree_find(&vf_t, e, pp)
 #define T_ERASE(e)     cstl_bintree_erase(&vf_t, e)
